@@ -452,6 +452,22 @@ func main() {
 					repeat = 2000
 				}
 				out := native.Replay(h.Pkg, h.Fn, rp, repeat, h.Synctest)
+				// crash-offset findings: the model's documents are a few bytes long, the real file
+				// hundreds, so the model's offset k need not be the real one: when the recorded k
+				// does not reproduce, every real offset 0..4096 is tried
+				if _, hasK := f.Named["k"]; hasK && out.Err == "" && f.Kind == "assert" {
+					hit := false
+					for _, a := range out.Asserts {
+						if a == f.Msg {
+							hit = true
+						}
+					}
+					if !hit {
+						native.SweepName, native.SweepMax = "k", 4096
+						out = native.Replay(h.Pkg, h.Fn, rp, 1, h.Synctest)
+						native.SweepName = ""
+					}
+				}
 				switch {
 				case out.Err != "":
 					detail = "native replay error: " + out.Err
